@@ -45,8 +45,14 @@ Fixpoint take (n : nat) (s : bytes) : option (bytes * bytes) :=
            | c :: s' => match take k s' with Some (a, r) => Some (c :: a, r) | None => None end
            end
   end.
-Definition take_n (n : N) (s : bytes) : option (bytes * bytes) :=
-  if N.of_nat (length s) <? n then None else take (N.to_nat n) s.
+(* counted in N so that a hostile 4 GB length costs nothing; linear in the bytes taken *)
+Fixpoint take_nl (s : bytes) (n : N) (acc : bytes) : option (bytes * bytes) :=
+  if n =? 0 then Some (rev_append acc [], s)
+  else match s with
+       | [] => None
+       | c :: s' => take_nl s' (N.pred n) (c :: acc)
+       end.
+Definition take_n (n : N) (s : bytes) : option (bytes * bytes) := take_nl s n [].
 
 Definition le_num (bs : bytes) : N := fold_right (fun b acc => b + 256 * acc) 0 bs.
 Definition be_num (bs : bytes) : N := le_num (rev bs).
